@@ -152,54 +152,6 @@ open V V.Json V.GoJson V.Redact V.EventParse V.RedactProofs
 
 /-! ## the redacted JSON without `event_id` decodes to an empty stored ID -/
 
-theorem emitField_shape (kvs : RedactProofs.Obj) (ty : Bytes) (nc : Option RedactProofs.Obj) (f : Field) :
-    emitField kvs ty nc f = [] ∨ ∃ v, emitField kvs ty nc f = [(f.name, v)] := by
-  unfold emitField
-  split
-  · split
-    · exact Or.inl rfl
-    · exact Or.inr ⟨_, rfl⟩
-  · split
-    · split
-      · exact Or.inl rfl
-      · exact Or.inr ⟨_, rfl⟩
-    · split
-      · exact Or.inl rfl
-      · exact Or.inr ⟨_, rfl⟩
-  · split
-    · exact Or.inr ⟨_, rfl⟩
-    · exact Or.inl rfl
-  · exact Or.inl rfl
-
-theorem output_keys_sublist (E : Field → RedactProofs.Obj) (hE : ∀ f, E f = [] ∨ ∃ v, E f = [(f.name, v)]) (fs : List Field) :
-    List.Sublist (keysOf (fs.flatMap E)) (fs.map (·.name)) := by
-  induction fs with
-  | nil => simp [keysOf]
-  | cons g gs ih =>
-    simp only [List.flatMap_cons, keysOf, List.map_append, List.map_cons]
-    rcases hE g with h | ⟨v, h⟩
-    · rw [h]; simp only [List.map_nil, List.nil_append]
-      exact List.Sublist.cons _ ih
-    · rw [h]; simp only [List.map_cons, List.map_nil, List.cons_append, List.nil_append]
-      exact List.Sublist.cons_cons _ ih
-
-theorem nodup_of_map_nodup {α β : Type} (f : α → β) : ∀ l : List α, (l.map f).Nodup → l.Nodup
-  | [], _ => List.nodup_nil
-  | x :: xs, h => by
-    rw [List.map_cons, List.nodup_cons] at h
-    rw [List.nodup_cons]
-    exact ⟨fun hx => h.1 (List.mem_map.mpr ⟨x, hx, rfl⟩), nodup_of_map_nodup f xs h.2⟩
-
-theorem names_nodup {fs : List Field} (h : foldDistinct fs = true) : (fs.map (·.name)).Nodup := by
-  have h' := (noDupIn_iff_nodup _).mp h
-  have : (fs.map (fun f => foldBytes f.name)) = (fs.map (·.name)).map foldBytes := by simp [List.map_map]
-  rw [this] at h'
-  exact nodup_of_map_nodup foldBytes _ h'
-
-theorem output_keys_nodup {a : Algo} (hd : foldDistinct a.fields = true) (kvs : RedactProofs.Obj) (tf cf : Field) :
-    (keysOf (outputOf a kvs tf cf)).Nodup :=
-  (output_keys_sublist _ (fun f => emitField_shape _ _ _ f) a.fields).nodup (names_nodup hd)
-
 theorem deleteFirst_removes (k : Bytes) (l : EventParse.Obj) (h : (keysOf l).Nodup) : ∀ kv ∈ deleteFirst k l, kv.1 ≠ k := by
   induction l with
   | nil => intro kv hkv; cases hkv
